@@ -278,6 +278,16 @@ def _tall_matrix(draw, weights=(6, 2, 2), nmax=NMAX, nmin=1):
     return np.ascontiguousarray(A), e
 
 
+@st.composite
+def _long_tall_matrix(draw, tier):
+    """Tall L x n with L crossing the blocking sizes and n <= 4: PRNG entries (dyadic), cond close to 1."""
+    n = draw(st.integers(1, 4))
+    Lg = draw(gen.long_dim(cap=257 if tier == "quick" else 520))
+    A, _ = draw(gen.long_qarray(Lg, n, "generic"))
+    e = draw(st.sampled_from([0, 0, 0, -3, 2]))
+    return np.ascontiguousarray(A / 16.0 * 10.0 ** e), e
+
+
 MAXIT = {"quick": [1, 3, 10, 30, 100, 300, 300, 300], "thorough": [1, 2, 3, 5, 10, 30, 100, 300, 300, 300, 1000]}
 
 
@@ -287,8 +297,8 @@ def _warm_matrix(A):
 
 
 @st.composite
-def rsp_column_cases(draw, tier):
-    A, e = draw(_tall_matrix(weights=(8, 1, 1)))
+def rsp_column_cases(draw, tier, long=False):
+    A, e = draw(_long_tall_matrix(tier) if long else _tall_matrix(weights=(8, 1, 1)))
     m, n = A.shape[:2]
     entry = draw(st.sampled_from(["compute", "compute", "compute_column_variant"]))
     block = draw(_block(n))
@@ -302,8 +312,8 @@ def rsp_column_cases(draw, tier):
 
 
 @st.composite
-def rsp_row_cases(draw, tier):
-    At, e = draw(_tall_matrix(weights=(8, 1, 1)))
+def rsp_row_cases(draw, tier, long=False):
+    At, e = draw(_long_tall_matrix(tier) if long else _tall_matrix(weights=(8, 1, 1)))
     A = np.ascontiguousarray(ref.conjT(At))                  # wide: m <= n, full row rank
     m, n = A.shape[:2]
     entry = "compute_row_variant" if m == n else draw(st.sampled_from(["compute", "compute_row_variant"]))
@@ -317,8 +327,8 @@ def rsp_row_cases(draw, tier):
 
 
 @st.composite
-def hybrid_cases(draw, tier):
-    A, e = draw(_tall_matrix(weights=(4, 3, 3)))
+def hybrid_cases(draw, tier, long=False):
+    A, e = draw(_long_tall_matrix(tier) if long else _tall_matrix(weights=(4, 3, 3)))
     m, n = A.shape[:2]
     return {"A": A, "scale_exp": e, "r": draw(_block(n)), "p": draw(st.integers(2, 8)), "T": draw(st.integers(1, 5)),
             "solver": draw(st.sampled_from(["qr", "qr", "spd"])), "tol": draw(_tol_strategy()),
@@ -328,8 +338,8 @@ def hybrid_cases(draw, tier):
 
 
 @st.composite
-def cgne_cases(draw, tier):
-    A, e = draw(_tall_matrix(weights=(3, 3, 4)))
+def cgne_cases(draw, tier, long=False):
+    A, e = draw(_long_tall_matrix(tier) if long else _tall_matrix(weights=(3, 3, 4)))
     m, n = A.shape[:2]
     pr = draw(st.sampled_from([0, 0, 0, 0, 1, 2, n, n + 1, -1]))
     max_iter = draw(st.sampled_from([None, None, None, 1, 2, 3, 10, 50]))
@@ -1002,6 +1012,14 @@ PROPERTY = Property(
         Clause("rsp_row", check_rsp_row, strategy=rsp_row_cases, budget={"quick": 160, "thorough": 3000}),
         Clause("hybrid", check_hybrid, strategy=hybrid_cases, budget={"quick": 320, "thorough": 6000}),
         Clause("cgne", check_cgne, strategy=cgne_cases, budget={"quick": 240, "thorough": 4000}),
+        Clause("rsp_column_long_dimension", check_rsp_column, strategy=lambda tier: rsp_column_cases(tier, long=True),
+               budget={"quick": 16, "thorough": 160}, shrink=False),
+        Clause("rsp_row_long_dimension", check_rsp_row, strategy=lambda tier: rsp_row_cases(tier, long=True),
+               budget={"quick": 12, "thorough": 120}, shrink=False),
+        Clause("hybrid_long_dimension", check_hybrid, strategy=lambda tier: hybrid_cases(tier, long=True),
+               budget={"quick": 16, "thorough": 160}, shrink=False),
+        Clause("cgne_long_dimension", check_cgne, strategy=lambda tier: cgne_cases(tier, long=True),
+               budget={"quick": 16, "thorough": 160}, shrink=False),
         Clause("trajectory_qr", check_trajectory, strategy=trajectory_cases, budget={"quick": 320, "thorough": 6000}),
         Clause("guards", check_guard, enumerate=enum_guards, budget={"quick": 0, "thorough": 0}),
     ],
